@@ -244,7 +244,7 @@ func stepConst(c *Ctx, name string) (int64, bool) {
 
 // rulesDecideOnStep: ORD-M (returned score is a maximum) and ORD-L (label matches the chosen candidate).
 func rulesDecideOnStep(c *Ctx, r *Report, ordM, ordL bool) {
-	f := c.fn("align", "decideOnStep")
+	f := c.role("align.decideOnStep")
 	where := "align.decideOnStep"
 	if f == nil || len(f.Params) != 3 {
 		r.undecided("ORD", where, "anchor", "", "decideOnStep(mch, del, ins) not found")
@@ -340,8 +340,8 @@ func staticCallsTo(f *ssa.Function, callee *ssa.Function) []*ssa.Call {
 func loadAlign(c *Ctx, r *Report, name, traceName string) *alignFn {
 	where := "align." + name
 	f := c.fn("align", name)
-	dec := c.fn("align", "decideOnStep")
-	tr := c.fn("align", traceName)
+	dec := c.role("align.decideOnStep")
+	tr := c.role(traceName)
 	if f == nil || dec == nil || tr == nil {
 		r.undecided("SIB", where, "anchor", "", "function, decideOnStep or "+traceName+" not found")
 		return nil
@@ -519,8 +519,8 @@ func guardOf(s *symb, blk *ssa.BasicBlock, repl map[string]string) string {
 // rulesSiblingRecurrence compares the Global and Local recurrences. With zeroGapOpen (C09) every
 // Get(Gap,Gap) is abstracted to 0, so disagreements that only concern the gap-open term are not reported.
 func rulesSiblingRecurrence(c *Ctx, r *Report, zeroGapOpen bool) {
-	g := loadAlign(c, r, "Global", "traceAlignmentSteps")
-	l := loadAlign(c, r, "Local", "traceAlignmentStepsLocal")
+	g := loadAlign(c, r, "Global", "align.traceGlobal")
+	l := loadAlign(c, r, "Local", "align.traceLocal")
 	if g == nil || l == nil {
 		return
 	}
@@ -737,8 +737,8 @@ func (a *alignFn) indexRule(c *Ctx, r *Report) {
 
 // rulesTraceFollowsFill (SIB3, SIB5): C08 only.
 func rulesTraceFollowsFill(c *Ctx, r *Report) {
-	g := loadAlign(c, r, "Global", "traceAlignmentSteps")
-	l := loadAlign(c, r, "Local", "traceAlignmentStepsLocal")
+	g := loadAlign(c, r, "Global", "align.traceGlobal")
+	l := loadAlign(c, r, "Local", "align.traceLocal")
 	if g == nil || l == nil {
 		return
 	}
@@ -922,7 +922,7 @@ func caseConstOf(blk *ssa.BasicBlock, f *ssa.Function, iphi *ssa.Phi) (int64, bo
 // iteration passes the test `blocks[i].score < 0` whose true edge zeroes the cell. A cell left
 // negative makes the traceback panic and lets an alignment start below zero.
 func rulesLocalClamp(c *Ctx, r *Report) {
-	a := loadAlign(c, r, "Local", "traceAlignmentStepsLocal")
+	a := loadAlign(c, r, "Local", "align.traceLocal")
 	if a == nil {
 		return
 	}
